@@ -25,6 +25,7 @@ ASSUMPTIONS = ["pixels whose two bracketing samples exist only on different leve
 REQUIRED_OBS = {"slices": 300, "pixels_decided": 20000, "class:boxface": 20, "class:gap-": 20,
                 "class:gap+": 20, "class:domainface": 10, "class:centre": 20, "out_of_domain_refused": 10,
                 "default_position": 5, "parallel": 50, "reuse": 5, "cli_runs": 30}
+CHAIN = {"quick": 2, "thorough": 20}
 TIMEOUT = {"quick": 600, "thorough": 3000}
 NAMES = ["ax", "ay", "az", "tagx", "tagy", "tagz", "rnd", "near", "cix", "ciy", "ciz"]
 
